@@ -26,7 +26,14 @@ func isConnReceive(c ssa.CallInstruction) bool {
 		strings.HasSuffix(callee.Signature.Recv().Type().String(), "/p2p.Conn") {
 		name = callee.Name()
 	}
-	return strings.HasPrefix(name, "Receive")
+	if strings.HasPrefix(name, "Receive") {
+		return true
+	}
+	// a wrapper of one receive (errWriter idiom): its call is the receive
+	if !cc.IsInvoke() {
+		return recvWrapper(cc.StaticCallee()) != ""
+	}
+	return false
 }
 
 // c16ctx holds the summaries of helper functions the garbler roles delegate label decisions to.  A module
